@@ -105,7 +105,7 @@ def t_change_attributes(ex):
             fields[n] = KInt.fresh(n)
             ex.assume(fields[n] >= 0)
     if cls_name == "fsLink":
-        fields["target"] = "t"
+        fields["target"] = "cur/../plugins//x/./"   # a target is opaque text: it is not a path of the image and must come back as it was
     if cls_name == "fsFile":
         from pyvc.sym import KRef
         fields["chksums"] = KRef("Chksums").fresh("chksums")
@@ -115,7 +115,13 @@ def t_change_attributes(ex):
     me = SObj(cls, dict(fields))
     newv = KInt.fresh("new_" + which)
     ex.assume(newv >= 0)
-    out = call(it, it.target(FS, "fsBase.change_attributes"), me, **{which: newv})
+    from pyvc import models as _models
+    it.target(FS, "fsBase.change_attributes")   # (registers the extracted text; the call below goes through the entry's own class, overrides included)
+    try:
+        bound = _models.getattr_(it, me, "change_attributes")
+        out = call(it, bound, **{which: newv})
+    except Exception:
+        raise
     ex.oblige(f"{P}.raises.nothing", not out.raised, kind="exceptional-postcondition")
     if out.raised:
         return
@@ -153,7 +159,7 @@ def _mk_entries():
                 elif kind == "dir":
                     out.append(fs.fsDir(loc, **kw))
                 elif kind == "sym":
-                    out.append(fs.fsSymlink(loc, target="t", **dict(kw, mode=mode & 0o1777)))
+                    out.append(fs.fsSymlink(loc, target=("t", "cur/../plugins", "../share/doc/", "./libbar.so", "..//lib//x")[(mode + uid) % 5], **dict(kw, mode=mode & 0o1777)))
                 else:
                     out.append(fs.fsFifo(loc, **kw))
     # device nodes, including major / minor 0 (1:0 is ram0, 43:0 nbd0)
@@ -208,7 +214,7 @@ def enum_premerge(seed):
 def tasks():
     fns = [(FILE, f"{n}.trigger") for n in TRIGGERS + ("detect_world_writable",)]
     return [Task("C23.pre_merge", t_premerge, fns, enumerate=enum_premerge),
-            Task("C23.change_attributes", t_change_attributes, [(FS, "fsBase.change_attributes"), (FS, "fsBase.__init__"), (FS, "fsDev.__init__"), (FS, "fsFile.__init__"),
+            Task("C23.change_attributes", t_change_attributes, [(FS, "fsBase.change_attributes"), (FS, "fsBase.__init__"), (FS, "fsDev.__init__"), (FS, "fsFile.__init__"), (FS, "fsFile.change_attributes"), (FS, "fsLink.change_attributes"),
                                                                 (FS, "fsLink.__init__")])]
 
 
